@@ -131,7 +131,7 @@ Definition spec_ok_C07_recoded (m helo stream : bytes) : bool :=
               && match xb with
                  | Some _ => match wb with
                              | Some b => match qp_decode 0 true (join_crlf b) with
-                                         | Some dec => bytes_eqb (with_final_crlf dec) obody
+                                         | Some dec => same_upto_final_crlf_b dec obody
                                          | None => false
                                          end
                              | None => false
